@@ -100,6 +100,10 @@ def library(rng, full):
         dict(name="H2O", symbols=["O", "H", "H"], coords=[[0, 0, 0.125], [0.75, 0, -0.5], [-0.75, 0, -0.5]], symmetric=True),
         dict(name="NH3", symbols=["N", "H", "H", "H"],
              coords=[[0, 0, 0.125], [0.9375, 0, -0.25], [-0.46875, 0.9375 * s3, -0.25], [-0.46875, -0.9375 * s3, -0.25]], symmetric=True),
+        dict(name="BH3", symbols=["B", "H", "H", "H"],
+             coords=[[0, 0, 0], [1.1875, 0, 0], [-0.59375, 1.1875 * s3, 0], [-0.59375, -1.1875 * s3, 0]], symmetric=True),
+        dict(name="BF3", symbols=["F", "B", "F", "F"],
+             coords=[[1.3125, 0, 0], [0, 0, 0], [-0.65625, 1.3125 * s3, 0], [-0.65625, -1.3125 * s3, 0]], symmetric=True),
         dict(name="CH4", symbols=["C", "H", "H", "H", "H"],
              coords=[[0, 0, 0], [.625, .625, .625], [-.625, -.625, .625], [-.625, .625, -.625], [.625, -.625, -.625]], symmetric=True),
         dict(name="C2H4", symbols=["C", "C", "H", "H", "H", "H"],
@@ -284,6 +288,16 @@ def size_class(n):
     return "1" if n == 1 else "2" if n == 2 else "3-12" if n <= 12 else "13-50" if n <= 50 else ">50"
 
 
+# molecules whose symmetry number the search finds identically under EVERY atom order on the reference tree (exhaustively
+# enumerated for n <= 5, sampled for C2H4); the search's known heuristic failure (first candidate axis of a cluster wins)
+# reproduces only for the benzene-type class (large planar ring), which alone keeps the plain key
+ORDER_INDEPENDENT = ["H2", "HF", "CO2", "HCN", "C2H2", "H2O", "NH3", "BH3", "BF3", "CH4", "C2H4", "rand3", "rand4", "rand5"]
+
+
+def order_key(molecule):
+    return "symmetry_number|atom-order-dependent" if molecule == "C6H6" else f"symmetry_number|atom-order-dependent:{molecule}"
+
+
 def frame_case(mol, fname, freqs, kw, motion, sigma):
     return dict(kind="frame", molecule=mol["name"], symbols=mol["symbols"], coords=mol["coords"], freq_set=fname, freqs=freqs,
                 kw=kw, motion=motion, sigma=sigma)
@@ -311,7 +325,7 @@ def eval_frame(case):
     if case["sigma"] is None:
         s0, s1 = sp0.sn, sp1.sn
         if s0 != s1:
-            key = "symmetry_number|frame-dependent" if pure else "symmetry_number|atom-order-dependent"
+            key = "symmetry_number|frame-dependent" if pure else order_key(case["molecule"])
             fails.append((key, what + f"species.sn = {s0} vs {s1}; g_cont differs by {dg:.3e} Ha"))
         elif abs(dh) > TOL_HA or abs(dg) > TOL_HA:
             fails.append((f"calculate_thermo_cont|frame-dependence-default-sn:{cls}", what + f"dH={dh:.3e} dG={dg:.3e} Ha (sn={s0} both)"))
@@ -487,7 +501,111 @@ def eval_units(case):
     return fails
 
 
-EVAL = {"frame": lambda c: eval_frame(c)[0], "identities": eval_identities, "units": eval_units}
+def eval_sn_order(case):
+    """species.sn (default symmetry number) of an exact small molecule under a re-ordering of its atoms"""
+    from autode import Atom, Molecule
+    sym, co, perm = case["symbols"], case["coords"], case["perm"]
+    mk = lambda ss, cc: Molecule(atoms=[Atom(a, *map(float, c)) for a, c in zip(ss, cc)])   # noqa: E731
+    s0 = mk(sym, co).sn
+    s1 = mk([sym[i] for i in perm], [co[i] for i in perm]).sn
+    if s0 == s1:
+        return []
+    kw = dict(temp=298.15, ss="1M", lfm_method="igm")
+    fr = case["freqs"]
+    g0 = run_thermo(sym, co, fr, kw)[1]
+    g1 = run_thermo([sym[i] for i in perm], [co[i] for i in perm], fr, kw)[1]
+    return [(order_key(case["molecule"]), f"{case['molecule']} atoms {sym}: species.sn = {s0}; the same atoms listed in the order {perm} "
+             f"({[sym[i] for i in perm]}): species.sn = {s1}; default g_cont differs by {g1 - g0:.3e} Ha")]
+
+
+CONFIG_SETTINGS = [            # (Config attribute, keyword, value, other keywords needed for it to matter)
+    ("standard_state", "ss", "1atm", {}), ("standard_state", "ss", "1M", {}),
+    ("lfm_method", "lfm_method", "igm", {}), ("lfm_method", "lfm_method", "truhlar", {}), ("lfm_method", "lfm_method", "minenkov", {}),
+    ("lfm_method", "lfm_method", "grimme", {}),
+    ("vib_freq_shift", "freq_shift", 250.0, {"lfm_method": "truhlar"}),
+    ("grimme_w0", "w0", 60.0, {"lfm_method": "grimme"}),
+    ("grimme_alpha", "alpha", 2, {"lfm_method": "minenkov"}),
+]
+
+
+def eval_config(case):
+    """run-time changes of autode.Config (restored afterwards) must act exactly like passing the keyword"""
+    from autode.config import Config
+    from autode.values import Frequency
+    k_b, _, C = si()
+    sym, co, fr = case["symbols"], case["coords"], case["freqs"]
+    T = float(case["kw"]["temp"])
+    base = dict(temp=T, sn=case["sigma"])
+    fails = []
+    tag = f"{case['molecule']} (T={T}, sn={case['sigma']}, {case['freq_set']} frequencies): "
+    by_state = {}
+    for attr, kwname, value, extra in CONFIG_SETTINGS:
+        for via in (("function", "calc_thermo") if len(sym) > 1 else ("function",)):
+            explicit = run_thermo(sym, co, fr, dict(base, **extra, **{kwname: value}), via=via)[:2]
+            old = getattr(Config, attr)
+            try:
+                setattr(Config, attr, Frequency(value) if attr in ("vib_freq_shift", "grimme_w0") else value)
+                implicit = run_thermo(sym, co, fr, dict(base, **extra), via=via)[:2]
+            finally:
+                setattr(Config, attr, old)
+            if abs(implicit[0] - explicit[0]) > 1e-12 or abs(implicit[1] - explicit[1]) > 1e-12:
+                fails.append((f"calculate_thermo_cont|Config.{attr}-ignored",
+                              tag + f"Config.{attr} = {value!r} set at run time, {via} without {kwname}= gives (H,G) = {implicit}; "
+                              f"passing {kwname}={value!r} gives {explicit}"))
+            if attr == "standard_state" and via == "function":
+                by_state[value] = implicit[1]
+    if len(by_state) == 2:
+        v_atm, v_m = ref_volumes(T)
+        want = k_b * T * math.log(v_atm / v_m) / C.ha_to_J
+        got = by_state["1M"] - by_state["1atm"]
+        if abs(got - want) > 1e-11 + 1e-9 * abs(want):
+            fails.append(("calculate_thermo_cont|Config.standard_state-ignored",
+                          tag + f"G(Config.standard_state='1M') - G(Config.standard_state='1atm') = {got!r} Ha, k_B T ln(V_1atm/V_1M) = {want!r} Ha"))
+    return fails
+
+
+def eval_sequence(case):
+    """ONE species object whose geometry is changed between evaluations (coordinates setter / atom translation) must give,
+    at every step, the symmetry number and contributions of a fresh species at the identical geometry and frequencies"""
+    from autode.thermochemistry.igm import calculate_thermo_cont
+    sym, fr, kw = case["symbols"], case["freqs"], dict(case["kw"])
+    steps = case["steps"]
+    fails = []
+    sp = make_species(sym, steps[0], fr)
+    for k, geo in enumerate(steps):
+        if k > 0:
+            if k % 2 == 1:
+                sp.coordinates = np.array(geo, dtype=float)
+            else:
+                cur = np.array(sp.coordinates, dtype=float)
+                for atom, d in zip(sp.atoms, np.array(geo, dtype=float) - cur):
+                    atom.translate(d)
+        s_obj = sp.sn
+        calculate_thermo_cont(sp, **kw)
+        h, g = float(sp.h_cont), float(sp.g_cont)
+        h_f, g_f, fresh = run_thermo(sym, geo, fr, kw)
+        if s_obj != fresh.sn or abs(h - h_f) > 1e-12 or abs(g - g_f) > 1e-12:
+            fails.append(("Species.sn|stale-after-geometry-change",
+                          f"{case['molecule']} ({kw}): step {k} of the geometry sequence {case['labels']}: the re-used species has sn = {s_obj}, "
+                          f"(H,G) = ({h}, {g}); a fresh species at the same geometry has sn = {fresh.sn}, (H,G) = ({h_f}, {g_f})"))
+    return fails
+
+
+def sequences(mols):
+    out = []
+    by = {m["name"]: m for m in mols}
+    for name, atom_i, d in (("H2O", 1, [0.25, 0.0, -0.125]), ("NH3", 2, [0.0, 0.25, 0.25]), ("CH4", 3, [0.25, 0.25, 0.0]), ("BF3", 0, [0.375, 0.0, 0.0])):
+        m = by[name]
+        c0 = [list(c) for c in m["coords"]]
+        c1 = [list(c) for c in c0]
+        c1[atom_i] = [a + b for a, b in zip(c1[atom_i], d)]
+        out.append(dict(kind="sequence", molecule=name, symbols=m["symbols"], steps=[c0, c1, c0, c1], labels=["symmetric", "distorted", "symmetric", "distorted"],
+                        linear=False))
+    return out
+
+
+EVAL = {"frame": lambda c: eval_frame(c)[0], "identities": eval_identities, "units": eval_units, "sn-order": eval_sn_order,
+        "config": eval_config, "sequence": eval_sequence}
 
 
 # ================================================================================================ correspondence
@@ -788,6 +906,51 @@ def run(ctx):
                 continue
             for key, what in res[0]:
                 observed.add(key)
+                fails.add(key, what, case)
+    # atom order of exact small molecules: exhaustive for n <= 4, sampled above
+    import itertools
+    by_name = {m["name"]: m for m in mols}
+    for name in ORDER_INDEPENDENT:
+        mol = by_name.get(name)
+        if mol is None:
+            continue
+        n = len(mol["symbols"])
+        if n <= 4 or (full and n <= 5):
+            perms = [list(p) for p in itertools.permutations(range(n))][1:]
+        else:
+            perms = [list(range(k, n)) + list(range(k)) for k in range(1, n)]              # every atom first once
+            while len(perms) < (10 if not full else 40):
+                p = list(range(n))
+                rng.shuffle(p)
+                perms.append(p)
+        freqs = freq_sets(rng, mol, full)["mixed"]
+        for p in perms:
+            case = dict(kind="sn-order", molecule=name, symbols=mol["symbols"], coords=mol["coords"], perm=p, freqs=freqs, linear=mol["linear"])
+            fl = guarded(fails, "Species.sn", eval_sn_order, case)
+            ctx.count("impl-symmetry-number-atom-order", (name, tuple(p)), nontrivial=True, sample=dict(molecule=name, perm=p))
+            for key, what in (fl or []):
+                observed.add(key)
+                fails.add(key, what, case)
+    # run-time Config changes act like the keywords; a re-used species follows its geometry
+    for name, fname in (("H2O", "lowmodes"), ("CO2", "lowmodes"), ("rand5", "lowmodes"), ("Ar", "none")) + \
+            ((("C6H6", "mixed"), ("rand12", "lowmodes"), ("cluster51", "mixed")) if full else ()):
+        mol = by_name.get(name)
+        if mol is None:
+            continue
+        fs = freq_sets(rng, mol, full)
+        case = dict(kind="config", molecule=name, symbols=mol["symbols"], coords=mol["coords"], freq_set=fname, freqs=fs.get(fname, fs.get("mixed")),
+                    kw=dict(temp=rng.choice([200.0, 298.15, 550.0])), sigma=rng.choice([1, 2]), linear=mol["linear"])
+        fl = guarded(fails, "calculate_thermo_cont", eval_config, case)
+        ctx.count("impl-config-at-run-time", (name, fname, case["kw"]["temp"]), nontrivial=True, sample=dict(molecule=name, T=case["kw"]["temp"]))
+        for key, what in (fl or []):
+            fails.add(key, what, case)
+    for seq in sequences(mols):
+        for kw in (dict(temp=298.15, ss="1M", lfm_method="grimme"), dict(temp=500.0, ss="1atm", lfm_method="igm")):
+            mol = by_name[seq["molecule"]]
+            case = dict(seq, kw=kw, freqs=freq_sets(rng, mol, full)["mixed"])
+            fl = guarded(fails, "calculate_thermo_cont", eval_sequence, case)
+            ctx.count("impl-geometry-change-sequence", (seq["molecule"], repr(kw)), nontrivial=True, sample=dict(molecule=seq["molecule"], kw=kw))
+            for key, what in (fl or []):
                 fails.add(key, what, case)
     ctx.check_known_still_fail(observed)
     ctx.log(f"implementation oracles: {fails.n} failures ({len(fails.per_key)} distinct keys)")
